@@ -56,7 +56,7 @@ def main():
             cps = ["cp %s %s/" % (t, target)]
             names = re.findall(r"^func (Test\w+)\(", open(t).read(), re.M)
             rel = os.path.relpath(target, w)
-            run_cmd = "go test -vet=off -count=1 -run '^(%s)$' ./%s" % ("|".join(names), rel if rel != "." else "")
+            run_cmd = "/verif/tools/core_suite.sh %s -run '^(%s)$' ./%s" % (w, "|".join(names), rel if rel != "." else "")
         elif mains:
             d = "%s/cmd-demo-%s" % (w, name)
             cps = ["mkdir -p %s" % d, "cp %s %s/main.go" % (mains[0], d)]
@@ -81,14 +81,16 @@ def main():
         res["ran"].append("%s   (patched: rc=%d)" % (run_cmd, rc1))
         # remove demo files before the suite so that the suite is the unedited one
         sh("git clean -fdq", cwd=w)
-        rct, outt = sh("go test -vet=off -count=1 ./... 2>&1 | grep -v '^ok\\|no test files'", cwd=w, timeout=3000)
+        # since the incident of 2026-09-26 (DESIGN.md section 4) the module cache is gone: the ROOT
+        # module's test packages are run with a stand-in for testify (tools/core_suite.sh)
+        rct, outt = sh("/verif/tools/core_suite.sh %s 2>&1 | grep -v '^ok\\|no test files'" % w, cwd=w, timeout=3000)
         bad = [l for l in outt.split("\n") if l.strip()]
         if any("TestSince" in l for l in bad):  # known timing flake under load: re-run alone
             rc2, out2 = sh("go test -vet=off -count=1 ./modules/time/", cwd=w)
             if rc2 == 0:
                 bad = [l for l in bad if "modules/time" not in l and "TestSince" not in l and "time_test.go" not in l and l.strip() not in ("FAIL",) and "Error" not in l and "Should be true" not in l and "Test:" not in l]
         res["suite_with_patch"] = "pass" if not bad else "FAIL: " + " | ".join(bad[:6])
-        res["ran"].append("go build ./... && go test -vet=off -count=1 ./...   (patched)")
+        res["ran"].append("go build ./... && tools/core_suite.sh <worktree>   (patched; root-module test packages with the testify stand-in)")
         # our checks
         vm = os.environ.get("VMUT", "/tmp/vmut")
         if not os.path.isdir(vm):
